@@ -174,30 +174,38 @@ type ExecOpts struct {
 	Fee    sdk.Coins
 	// SkipValidateBasic runs the handler even if ValidateBasic fails (never used for conformance).
 	SkipValidateBasic bool
+	// Then: further messages of the same atomic unit (one transaction / one governance proposal):
+	// they run after the first on the same branch and everything is dropped unless all succeed.
+	Then []sdk.Msg
 }
 
 // ExecMsg runs one message on a fresh branch of ctx with baseapp's commit rule: handler effects
 // persist only if it returned no error and did not panic.
 func (w *World) ExecMsg(ctx sdk.Context, msg sdk.Msg, o ExecOpts) (next sdk.Context, out Outcome) {
 	cc := Branch(ctx)
-	msg = w.Wire(msg)
+	msgs := []sdk.Msg{w.Wire(msg)}
+	for _, m := range o.Then {
+		msgs = append(msgs, w.Wire(m))
+	}
 	if !o.SkipValidateBasic {
-		var vbErr error
-		func() {
-			defer func() {
-				if r := recover(); r != nil {
-					out = Outcome{Class: Panic, Log: "ValidateBasic: " + fmt.Sprint(r), Stack: string(debug.Stack())}
-				}
+		for _, m := range msgs {
+			var vbErr error
+			func() {
+				defer func() {
+					if r := recover(); r != nil {
+						out = Outcome{Class: Panic, Log: "ValidateBasic: " + fmt.Sprint(r), Stack: string(debug.Stack())}
+					}
+				}()
+				vbErr = m.ValidateBasic()
 			}()
-			vbErr = msg.ValidateBasic()
-		}()
-		if out.Class == Panic {
-			return cc, out
-		}
-		if vbErr != nil {
-			o2 := errOutcome(vbErr)
-			o2.Class = Invalid
-			return cc, o2
+			if out.Class == Panic {
+				return cc, out
+			}
+			if vbErr != nil {
+				o2 := errOutcome(vbErr)
+				o2.Class = Invalid
+				return cc, o2
+			}
 		}
 	}
 	if o.Ante {
@@ -205,9 +213,10 @@ func (w *World) ExecMsg(ctx sdk.Context, msg sdk.Msg, o ExecOpts) (next sdk.Cont
 			return Branch(ctx), *fail
 		}
 	}
-	h := w.handler(msg)
-	if h == nil {
-		return cc, Outcome{Class: Err, Codespace: sdkerrors.RootCodespace, Code: sdkerrors.ErrUnknownRequest.ABCICode(), Log: "unrecognized message route"}
+	for _, m := range msgs {
+		if w.handler(m) == nil {
+			return cc, Outcome{Class: Err, Codespace: sdkerrors.RootCodespace, Code: sdkerrors.ErrUnknownRequest.ABCICode(), Log: "unrecognized message route"}
+		}
 	}
 	mc, write := cc.CacheContext()
 	mc = mc.WithEventManager(sdk.NewEventManager())
@@ -217,17 +226,23 @@ func (w *World) ExecMsg(ctx sdk.Context, msg sdk.Msg, o ExecOpts) (next sdk.Cont
 				out = Outcome{Class: Panic, Log: fmt.Sprint(r), Stack: string(debug.Stack())}
 			}
 		}()
-		res, err := h(mc, msg)
-		if err != nil {
-			out = errOutcome(err)
-			return
+		var evs []abci.Event
+		var last *sdk.Result
+		for _, m := range msgs {
+			res, err := w.handler(m)(mc, m)
+			if err != nil {
+				out = errOutcome(err)
+				return
+			}
+			evs = append(evs, mc.EventManager().ABCIEvents()...)
+			mc = mc.WithEventManager(sdk.NewEventManager())
+			if res != nil {
+				// the msg service router runs the handler on its own event manager and returns the events in the result
+				evs = append(evs, res.Events...)
+			}
+			last = res
 		}
-		evs := mc.EventManager().ABCIEvents()
-		if res != nil {
-			// the msg service router runs the handler on its own event manager and returns the events in the result
-			evs = append(evs, res.Events...)
-		}
-		out = Outcome{Class: OK, Events: evs, Resp: res}
+		out = Outcome{Class: OK, Events: evs, Resp: last}
 	}()
 	if out.Class == OK {
 		write()
@@ -272,6 +287,14 @@ type Node struct {
 	// Transcript, when non-nil, receives one canonical line per ABCI response restricted to the
 	// fields ABCI defines as deterministic (code, codespace, data, gas, events, app hash).
 	Transcript *[]string
+	// RestartEachBlock: after every Commit the application object is thrown away and a new one is
+	// built over the same database (what a node restart does): everything that is not chain state is lost.
+	RestartEachBlock bool
+	// SimulateNoise: every transaction is also run through CheckTx and Simulate before and after
+	// it is delivered (what a node with a mempool and a gas-estimating client does): handlers run on
+	// states that are thrown away.
+	SimulateNoise bool
+	Restarts      int
 }
 
 func (n *Node) rec(kind string, code uint32, codespace string, data []byte, gw, gu int64, evs []abci.Event, hash []byte) {
@@ -311,6 +334,10 @@ func (n *Node) NextBlock(dt time.Duration) (out Outcome) {
 	c := n.App.Commit()
 	n.rec("commit", 0, "", nil, 0, 0, nil, c.Data)
 	n.Hashes = append(n.Hashes, c.Data)
+	if n.RestartEachBlock {
+		n.App = reopenApp(n.DB)
+		n.Restarts++
+	}
 	n.Header = tmproto.Header{ChainID: ChainID, Height: n.Header.Height + 1, Time: n.Header.Time.Add(dt), AppHash: c.Data}
 	bb := n.App.BeginBlock(abci.RequestBeginBlock{Header: n.Header})
 	n.rec("beginblock", 0, "", nil, 0, 0, bb.Events, nil)
@@ -353,6 +380,11 @@ func SignTxWith(ctx sdk.Context, w *World, msgs []sdk.Msg, signer string, fee sd
 
 // DeliverMsg signs and delivers one message as a real transaction.
 func (n *Node) DeliverMsg(msg sdk.Msg, signer string, fee sdk.Coins) (out Outcome) {
+	return n.DeliverMsgs([]sdk.Msg{msg}, signer, fee)
+}
+
+// DeliverMsgs signs and delivers one real transaction carrying all the messages.
+func (n *Node) DeliverMsgs(msgs []sdk.Msg, signer string, fee sdk.Coins) (out Outcome) {
 	var bz []byte
 	var err error
 	func() {
@@ -361,23 +393,45 @@ func (n *Node) DeliverMsg(msg sdk.Msg, signer string, fee sdk.Coins) (out Outcom
 				err = fmt.Errorf("cannot build transaction: %v", r)
 			}
 		}()
-		bz, err = n.SignTx(msg, signer, fee)
+		bz, err = SignTxWith(n.Ctx(), n.World, msgs, signer, fee)
 	}()
 	if err != nil {
 		// a message that cannot even be put into a transaction (e.g. unparsable signer) never reaches the chain
 		o := Outcome{Class: Err, Codespace: "harness", Code: 1, Log: err.Error()}
 		func() {
 			defer func() { _ = recover() }()
-			if msg.ValidateBasic() != nil {
-				o.Class = Invalid
+			for _, m := range msgs {
+				if m.ValidateBasic() != nil {
+					o.Class = Invalid
+				}
 			}
 		}()
 		return o
 	}
-	return n.DeliverTxBytes(bz, msg)
+	return n.deliverTxBytes(bz, msgs)
 }
 
 func (n *Node) DeliverTxBytes(bz []byte, msg sdk.Msg) Outcome {
+	if msg == nil {
+		return n.deliverTxBytes(bz, nil)
+	}
+	return n.deliverTxBytes(bz, []sdk.Msg{msg})
+}
+
+func (n *Node) noise(bz []byte) {
+	if !n.SimulateNoise {
+		return
+	}
+	func() {
+		defer func() { _ = recover() }()
+		n.App.CheckTx(abci.RequestCheckTx{Tx: bz, Type: abci.CheckTxType_New})
+		_, _, _ = n.App.Simulate(bz)
+	}()
+}
+
+func (n *Node) deliverTxBytes(bz []byte, msgs []sdk.Msg) Outcome {
+	n.noise(bz)
+	defer n.noise(bz)
 	r := n.App.DeliverTx(abci.RequestDeliverTx{Tx: bz})
 	n.rec("delivertx", r.Code, r.Codespace, r.Data, r.GasWanted, r.GasUsed, r.Events, nil)
 	if r.Code == 0 {
@@ -388,43 +442,51 @@ func (n *Node) DeliverTxBytes(bz []byte, msg sdk.Msg) Outcome {
 	}
 	o := Outcome{Class: Err, Codespace: r.Codespace, Code: r.Code, Log: r.Log}
 	// runTx validates messages before the ante handler: no persistent effect at all.
-	if msg != nil {
-		func() {
-			defer func() { _ = recover() }()
-			if msg.ValidateBasic() != nil {
+	func() {
+		defer func() { _ = recover() }()
+		for _, m := range msgs {
+			if m.ValidateBasic() != nil {
 				o.Class = Invalid
 			}
-		}()
-	}
+		}
+	}()
 	return o
 }
 
 // GovExec executes an authority message the way x/gov's EndBlocker does: handler from the real
 // router on a cache branch of the deliver state, written back only on success. No panic recovery
 // exists on that path in SDK 0.46, so a panic is reported as such.
-func (n *Node) GovExec(msg sdk.Msg) (out Outcome) {
+func (n *Node) GovExec(msg sdk.Msg) (out Outcome) { return n.GovExecAll([]sdk.Msg{msg}) }
+
+// GovExecAll executes the messages of one proposal: all on one cache branch, written back only
+// if every one of them succeeds.
+func (n *Node) GovExecAll(in []sdk.Msg) (out Outcome) {
 	ctx := n.Ctx()
-	msg = n.Wire(msg)
-	h := n.handler(msg)
-	if h == nil {
-		return Outcome{Class: Err, Codespace: sdkerrors.RootCodespace, Code: sdkerrors.ErrUnknownRequest.ABCICode()}
+	msgs := make([]sdk.Msg, len(in))
+	for i, m := range in {
+		msgs[i] = n.Wire(m)
+		if n.handler(msgs[i]) == nil {
+			return Outcome{Class: Err, Codespace: sdkerrors.RootCodespace, Code: sdkerrors.ErrUnknownRequest.ABCICode()}
+		}
 	}
-	var vbErr error
-	func() {
-		defer func() {
-			if r := recover(); r != nil {
-				out = Outcome{Class: Panic, Log: "ValidateBasic: " + fmt.Sprint(r)}
-			}
+	for _, msg := range msgs {
+		var vbErr error
+		func() {
+			defer func() {
+				if r := recover(); r != nil {
+					out = Outcome{Class: Panic, Log: "ValidateBasic: " + fmt.Sprint(r)}
+				}
+			}()
+			vbErr = msg.ValidateBasic()
 		}()
-		vbErr = msg.ValidateBasic()
-	}()
-	if out.Class == Panic {
-		return out
-	}
-	if vbErr != nil {
-		o := errOutcome(vbErr)
-		o.Class = Invalid
-		return o
+		if out.Class == Panic {
+			return out
+		}
+		if vbErr != nil {
+			o := errOutcome(vbErr)
+			o.Class = Invalid
+			return o
+		}
 	}
 	mc, write := ctx.CacheContext()
 	mc = mc.WithEventManager(sdk.NewEventManager())
@@ -433,19 +495,25 @@ func (n *Node) GovExec(msg sdk.Msg) (out Outcome) {
 			out = Outcome{Class: Panic, Log: fmt.Sprint(r), Stack: string(debug.Stack())}
 		}
 	}()
-	res, err := h(mc, msg)
-	if err != nil {
-		o := errOutcome(err)
-		n.rec("govexec", o.Code, o.Codespace, nil, 0, 0, nil, nil)
-		return o
+	var evs []abci.Event
+	var last *sdk.Result
+	for _, msg := range msgs {
+		res, err := n.handler(msg)(mc, msg)
+		if err != nil {
+			o := errOutcome(err)
+			n.rec("govexec", o.Code, o.Codespace, nil, 0, 0, nil, nil)
+			return o
+		}
+		evs = append(evs, mc.EventManager().ABCIEvents()...)
+		mc = mc.WithEventManager(sdk.NewEventManager())
+		if res != nil {
+			evs = append(evs, res.Events...)
+		}
+		last = res
 	}
 	write()
-	evs := mc.EventManager().ABCIEvents()
-	if res != nil {
-		evs = append(evs, res.Events...)
-	}
 	n.rec("govexec", 0, "", nil, 0, 0, evs, nil)
-	return Outcome{Class: OK, Events: evs, Resp: res}
+	return Outcome{Class: OK, Events: evs, Resp: last}
 }
 
 // EventsOfType filters ABCI events by (proto full name or plain) type.
